@@ -59,8 +59,10 @@ impl CRawWaker {
             CRawWaker::to_raw(waker)
         }
         unsafe fn wake(data: *const ()) {
+            // The record is shared by every clone of this waker: wake through it by reference and
+            // only release this handle. The record's own `Drop` releases the underlying waker.
             let this = BaseArc::from_raw(data as *const CRawWaker);
-            (this.vtable.wake)(this.waker)
+            (this.vtable.wake_by_ref)(this.waker)
         }
         unsafe fn wake_by_ref(data: *const ()) {
             let data = data as *const CRawWaker;
@@ -68,13 +70,19 @@ impl CRawWaker {
             (this.vtable.wake_by_ref)(this.waker)
         }
         unsafe fn drop(data: *const ()) {
-            let this = BaseArc::from_raw(data as *const CRawWaker);
-            (this.vtable.drop)(this.waker)
+            let _ = BaseArc::from_raw(data as *const CRawWaker);
         }
 
         let vtbl = &RawWakerVTable::new(clone, wake, wake_by_ref, drop);
 
         RawWaker::new(this.into_raw() as *const (), vtbl)
+    }
+}
+
+impl Drop for CRawWaker {
+    fn drop(&mut self) {
+        // Runs once, when the last handle sharing this record goes away.
+        unsafe { (self.vtable.drop)(self.waker) }
     }
 }
 
